@@ -75,4 +75,22 @@ def fetchOne (tmpSameFs : Bool) (g : Guid) (st : Storage) (s : St) (x : Addr × 
 def fetch (tmpSameFs : Bool) (g : Guid) (st : Storage) (s : St) (l : List (Addr × Dl)) : St :=
   l.foldl (fetchOne tmpSameFs g st) s
 
+/-- `XvcLocalStorage::delete`: the storage files of the given cache paths are removed one after the
+    other; the first one that is not there ends the command with an error (`fs::remove_file(..)?`) -/
+def storageDelete (g : Guid) (st : Storage) : List Addr → Storage × Out
+  | [] => (st, .ok)
+  | a :: as =>
+    match st.objs (g, a) with
+    | none => (st, .refused)
+    | some _ => storageDelete g { objs := upd st.objs (g, a) none } as
+
+/-- `xvc file remove --from-storage`: the same `deletable_paths` as for the cache, sorted
+    (`sort_unstable` on the cache path strings — `order` stands for that permutation, the model does
+    not know the hex strings), deleted from `<guid>/…` of the storage -/
+def St.removeFromStorage (s : St) (g : Guid) (st : Storage) (ps : List Path) (sel : RemoveSel) (force : Bool)
+    (order : List Addr → List Addr) : Storage × Out :=
+  match s.removeDeletable ps sel force with
+  | none => (st, .refused)
+  | some l => storageDelete g st (order l)
+
 end Repo
